@@ -42,13 +42,16 @@ var c11WaitScale = 1 // raised by C11_WAIT_SCALE for experiments
 var c11LockWaitAbsent bool // no call was ever seen waiting in RWMutex.RLock (library changed its locking)
 
 type c11Spec struct {
-	Fam    string   `json:"fam"` // cell | multi | reconn
+	Fam    string   `json:"fam"` // cell | stray | multi | reconn
 	Call   string   `json:"call,omitempty"`
 	Point  string   `json:"point,omitempty"`
 	Cause  string   `json:"cause,omitempty"`
 	Calls  []string `json:"calls,omitempty"`  // multi: call@point
 	Cancel []int    `json:"cancel,omitempty"` // multi: indices whose context is cancelled before the connection ends
 	Phase  string   `json:"phase,omitempty"`
+	Kind   string   `json:"kind,omitempty"` // stray: pingresp connack puback pubrec pubcomp suback unsuback
+	IDs    string   `json:"ids,omitempty"`  // stray: consumed | unknown (pingresp: answered | timedout)
+	K      int      `json:"k,omitempty"`    // stray: how many stray packets
 }
 
 type c11Res struct {
@@ -63,9 +66,11 @@ type c11Obs struct {
 	RExit    bool     `json:"rexit"`
 	F14      bool     `json:"f14,omitempty"`       // blocked well past its own cancellation, came back only when the lock holder ended
 	Leak     []string `json:"leak,omitempty"`      // goroutines with library frames left after cleanup
+	LeakAt   string   `json:"leak_at,omitempty"`   // stack of the first of them
 	AuxStuck string   `json:"aux_stuck,omitempty"` // an auxiliary blocking call (lock holder, Disconnect used as cause) did not return
 	All      []c11Res `json:"all,omitempty"`       // multi: every call
 	LoopGone bool     `json:"loop_gone,omitempty"` // reconn: loop goroutine gone after the scenario
+	Marker   bool     `json:"marker,omitempty"`    // stray: the marker PUBLISH sent after the stray packets reached the handler
 	Note     string   `json:"note,omitempty"`
 	Crash    string   `json:"crash,omitempty"`
 	Ms       int64    `json:"ms"` // wall time of the scenario including cleanup
@@ -148,6 +153,34 @@ func (sc *c11Scope) waitNone(pred func(string) bool, d time.Duration) (bool, []s
 	}
 }
 
+// stackOfNew returns the stack of one goroutine born in the scope that has library frames
+func (sc *c11Scope) stackOfNew() string {
+	for id, st := range c11LibGoroutines() {
+		if _, old := sc.base[id]; !old {
+			var keep []string
+			for _, l := range strings.Split(st, "\n") {
+				if strings.HasPrefix(l, "\t") {
+					// keep "file.go:line" of the frame
+					l = strings.TrimSpace(l)
+					if i := strings.LastIndex(l, "/"); i >= 0 {
+						l = l[i+1:]
+					}
+					if i := strings.Index(l, " "); i >= 0 {
+						l = l[:i]
+					}
+					l = "@" + l
+				}
+				keep = append(keep, l)
+			}
+			if len(keep) > 16 {
+				keep = keep[:16]
+			}
+			return strings.Join(keep, " | ")
+		}
+	}
+	return ""
+}
+
 func (sc *c11Scope) waitSome(pred func(string) bool, d time.Duration) bool {
 	deadline := time.Now().Add(d)
 	for {
@@ -180,10 +213,13 @@ type c11Peer struct {
 	wake    chan struct{}
 	ackConn bool
 	ended   bool // the peer closed or sent a malformed packet
+	answer  bool // answer every request (used for preludes); otherwise the answers are withheld
+	lastID  map[byte]uint16
+	usedIDs map[uint16]bool
 }
 
 func c11NewPeer(n int, ackConn bool) *c11Peer {
-	p := &c11Peer{seen: map[byte]int{}, wake: make(chan struct{}, 1), ackConn: ackConn}
+	p := &c11Peer{seen: map[byte]int{}, wake: make(chan struct{}, 1), ackConn: ackConn, lastID: map[byte]uint16{}, usedIDs: map[uint16]bool{}}
 	p.conn = newMemConn(n, func(c *memConn, pkt []byte) error {
 		t := pkt[0] & 0xF0
 		switch t {
@@ -196,11 +232,37 @@ func c11NewPeer(n int, ackConn bool) *c11Peer {
 			}
 		case 0x30:
 			// a QoS 2 PUBLISH on topic "p2" is answered with PUBREC: the call then parks waiting PUBCOMP
-			if (pkt[0]>>1)&3 == 2 && len(pkt) >= 4 {
+			if qos := (pkt[0] >> 1) & 3; qos > 0 && len(pkt) >= 4 {
 				tl := int(pkt[2])<<8 | int(pkt[3])
-				if len(pkt) >= 6+tl && string(pkt[4:4+tl]) == "p2" {
-					c.send(encID(0x50, uint16(pkt[4+tl])<<8|uint16(pkt[5+tl])))
+				if len(pkt) >= 6+tl {
+					id := uint16(pkt[4+tl])<<8 | uint16(pkt[5+tl])
+					p.noteID(t, id)
+					switch {
+					case qos == 1 && p.answering():
+						c.send(encID(0x40, id))
+					case qos == 2 && (p.answering() || string(pkt[4:4+tl]) == "p2"):
+						c.send(encID(0x50, id))
+					}
 				}
+			}
+		case 0x60, 0x80, 0xA0:
+			if len(pkt) >= 4 {
+				id := uint16(pkt[2])<<8 | uint16(pkt[3])
+				p.noteID(t, id)
+				if p.answering() {
+					switch t {
+					case 0x60:
+						c.send(encID(0x70, id))
+					case 0x80:
+						c.send(encFrame(0x90, []byte{pkt[2], pkt[3], 1}))
+					case 0xA0:
+						c.send(encID(0xB0, id))
+					}
+				}
+			}
+		case 0xC0:
+			if p.answering() {
+				c.send([]byte{0xD0, 0})
 			}
 		}
 		p.mu.Lock()
@@ -213,6 +275,25 @@ func c11NewPeer(n int, ackConn bool) *c11Peer {
 		return nil
 	})
 	return p
+}
+
+func (p *c11Peer) answering() bool {
+	p.mu.Lock()
+	defer p.mu.Unlock()
+	return p.answer
+}
+
+func (p *c11Peer) setAnswer(b bool) {
+	p.mu.Lock()
+	p.answer = b
+	p.mu.Unlock()
+}
+
+func (p *c11Peer) noteID(t byte, id uint16) {
+	p.mu.Lock()
+	p.lastID[t] = id
+	p.usedIDs[id] = true
+	p.mu.Unlock()
 }
 
 func (p *c11Peer) count(t byte) int {
@@ -432,6 +513,7 @@ func c11RunCellOnce(sp c11Spec, deadline time.Duration) (obs c11Obs, deadlineEar
 		}
 		if ok, left := sc.waitNone(nil, wait); !ok {
 			obs.Leak = left
+			obs.LeakAt = sc.stackOfNew()
 		}
 	}()
 
@@ -647,6 +729,193 @@ func c11EntryCell(sp c11Spec, sc *c11Scope, peer *c11Peer, cli *mqtt.BaseClient,
 	return *obs
 }
 
+// ---------------------------------------------------------------- stray acknowledgements before the cause
+
+// c11RunStray: after a prelude (a request that completed, or a Ping that gave up) the peer sends K
+// acknowledgements nobody waits for — late, duplicated or for an identifier never used — followed by a marker
+// PUBLISH. The marker reaching the handler shows that the reader has consumed them and is alive. Then the
+// cause strikes as in a matrix cell (with one call parked, or none).
+func c11RunStray(sp c11Spec) (obs c11Obs) {
+	wait := c11Wait * time.Duration(c11WaitScale)
+	sc := c11NewScope()
+	bg := context.Background()
+	peer := c11NewPeer(1, true)
+	cli := &mqtt.BaseClient{Transport: peer.conn}
+	markerCh := make(chan struct{}, 16)
+	cli.Handle(mqtt.HandlerFunc(func(m *mqtt.Message) {
+		if m.Topic == "marker" {
+			select {
+			case markerCh <- struct{}{}:
+			default:
+			}
+		}
+	}))
+	var cancels []context.CancelFunc
+	var pending []c11Pending
+	wedged := false
+	defer func() {
+		for _, c := range cancels {
+			c()
+		}
+		cli.Close()
+		if wedged {
+			// the reader goroutine sits in a hand-off for ever: nothing to wait for
+			obs.Leak = sc.find(nil)
+			return
+		}
+		for _, p := range pending {
+			if _, ok := c11Await(p.ch, wait); !ok {
+				obs.AuxStuck += p.name + " "
+			}
+		}
+		if ok, left := sc.waitNone(nil, wait); !ok {
+			obs.Leak = left
+			obs.LeakAt = sc.stackOfNew()
+		}
+	}()
+	fail := func(msg string) c11Obs {
+		obs.c11Res = c11Res{Res: "other", Detail: "setup: " + msg}
+		return obs
+	}
+	cctx, ccancel := ctxTimeout(wait)
+	_, err := cli.Connect(cctx, "cid")
+	ccancel()
+	if err != nil {
+		return fail("Connect failed: " + err.Error())
+	}
+	// ---- prelude
+	runAnswered := func(call string) error {
+		peer.setAnswer(true)
+		defer peer.setAnswer(false)
+		ctx, cancel := ctxTimeout(wait)
+		defer cancel()
+		r, ok := c11Await(c11Go(func() error { return c11Invoke(call, false, cli, nil, ctx) }), wait)
+		if !ok {
+			return errors.New("prelude " + call + " did not return")
+		}
+		if r.panicked != "" {
+			return errors.New("prelude panicked: " + r.panicked)
+		}
+		return r.err
+	}
+	var strayID uint16
+	reqOf := map[string]struct {
+		call string
+		typ  byte
+	}{"puback": {"pub1", 0x30}, "pubrec": {"pub2", 0x30}, "pubcomp": {"pub2", 0x60}, "suback": {"sub", 0x80}, "unsuback": {"unsub", 0xA0}}
+	switch {
+	case sp.Kind == "pingresp" && sp.IDs == "answered":
+		if err := runAnswered("ping"); err != nil {
+			return fail("answered Ping: " + err.Error())
+		}
+	case sp.Kind == "pingresp":
+		ctx, cancel := context.WithCancel(bg)
+		base := peer.count(0xC0)
+		ch := c11Go(func() error { return cli.Ping(ctx) })
+		peer.waitSeen(0xC0, base+1, nil, wait)
+		cancel()
+		if _, ok := c11Await(ch, wait); !ok {
+			return fail("cancelled Ping did not return")
+		}
+	case sp.IDs == "consumed":
+		rq := reqOf[sp.Kind]
+		if err := runAnswered(rq.call); err != nil {
+			return fail("answered " + rq.call + ": " + err.Error())
+		}
+		peer.mu.Lock()
+		strayID = peer.lastID[rq.typ]
+		peer.mu.Unlock()
+	}
+	// ---- the call that will be blocked when the cause strikes
+	var ctx context.Context
+	var ret chan c11Ret
+	var cancel context.CancelFunc
+	wait2 := sp.Point == "wait2"
+	if sp.Call != "none" {
+		ctx, cancel = context.WithCancel(bg)
+		cancels = append(cancels, cancel)
+		t := c11ReqType(sp.Call, wait2)
+		base := peer.count(t)
+		call := sp.Call
+		ret = c11Go(func() error { return c11Invoke(call, wait2, cli, nil, ctx) })
+		if !peer.waitSeen(t, base+1, nil, wait) {
+			obs.Note = "request packet never seen on the wire"
+		}
+	}
+	if sp.IDs == "unknown" {
+		peer.mu.Lock()
+		for strayID = 40000; peer.usedIDs[strayID]; strayID++ {
+		}
+		peer.mu.Unlock()
+	}
+	// ---- stray packets, then the marker
+	var pkt []byte
+	switch sp.Kind {
+	case "pingresp":
+		pkt = []byte{0xD0, 0}
+	case "connack":
+		pkt = connackOK
+	case "puback":
+		pkt = encID(0x40, strayID)
+	case "pubrec":
+		pkt = encID(0x50, strayID)
+	case "pubcomp":
+		pkt = encID(0x70, strayID)
+	case "suback":
+		pkt = encFrame(0x90, []byte{byte(strayID >> 8), byte(strayID), 0})
+	case "unsuback":
+		pkt = encID(0xB0, strayID)
+	}
+	var stream []byte
+	for i := 0; i < sp.K; i++ {
+		stream = append(stream, pkt...)
+	}
+	stream = append(stream, encPublish(inMsg{Topic: []byte("marker"), QoS: 0, Payload: []byte{1}})...)
+	peer.conn.send(stream)
+	select {
+	case <-markerCh:
+		obs.Marker = true
+	case <-time.After(wait):
+		// the connection is healthy and the reader does not read: nothing below can succeed
+		wedged = true
+		obs.c11Res = c11Res{Res: "stuck", Detail: "reader goroutine stopped reading after the stray packets: " + strings.Join(sc.find(c11IsReader), ",")}
+		return obs
+	}
+	// ---- the cause
+	switch sp.Cause {
+	case "cancel":
+		cancel()
+	case "localclose":
+		cli.Close()
+	case "localdisconnect":
+		dctx, dcancel := ctxTimeout(wait)
+		cancels = append(cancels, dcancel)
+		dch := c11Go(func() error { return cli.Disconnect(dctx) })
+		if ret != nil {
+			pending = append(pending, c11Pending{"Disconnect used as cause", dch})
+		} else if _, ok := c11Await(dch, wait); !ok {
+			// nobody is blocked: the Disconnect itself is what has to come back before Done() is looked at
+			obs.AuxStuck = "Disconnect used as cause "
+		}
+	case "peerclose":
+		peer.ended = true
+		peer.conn.finish()
+	case "malformed":
+		peer.ended = true
+		peer.conn.send(c11BadPacket)
+	}
+	if ret == nil {
+		obs.c11Res = c11Res{Res: "nil"}
+	} else if r, ok := c11Await(ret, wait); ok {
+		obs.c11Res = c11Classify(r, ctx)
+	} else {
+		obs.c11Res = c11Res{Res: "stuck"}
+		pending = append(pending, c11Pending{"the call under test", ret})
+	}
+	c11ObserveEnd(&obs, sc, peer, cli, wait)
+	return obs
+}
+
 // ---------------------------------------------------------------- several calls blocked at once
 
 func c11RunMulti(sp c11Spec) (obs c11Obs) {
@@ -666,6 +935,7 @@ func c11RunMulti(sp c11Spec) (obs c11Obs) {
 		}
 		if ok, left := sc.waitNone(nil, wait); !ok {
 			obs.Leak = left
+			obs.LeakAt = sc.stackOfNew()
 		}
 	}()
 	cctx, ccancel := ctxTimeout(wait)
@@ -749,7 +1019,8 @@ func c11RunMulti(sp c11Spec) (obs c11Obs) {
 
 type c11Dialer struct {
 	mu      sync.Mutex
-	mode    string // fail | hang | ok
+	mode    string // fail | hang | ok | gate
+	gate    chan struct{}
 	ackConn bool
 	dials   int
 	wake    chan struct{}
@@ -760,7 +1031,15 @@ type c11Dialer struct {
 func (d *c11Dialer) DialContext(ctx context.Context) (*mqtt.BaseClient, error) {
 	d.mu.Lock()
 	d.dials++
-	mode, ack := d.mode, d.ackConn
+	mode, ack, gate := d.mode, d.ackConn, d.gate
+	var cli *mqtt.BaseClient
+	if mode == "ok" || mode == "gate" {
+		// the peer exists before anybody can learn about this dial
+		p := c11NewPeer(d.dials, ack)
+		cli = &mqtt.BaseClient{Transport: p.conn}
+		d.peers = append(d.peers, p)
+		d.clis = append(d.clis, cli)
+	}
 	d.mu.Unlock()
 	select {
 	case d.wake <- struct{}{}:
@@ -770,13 +1049,15 @@ func (d *c11Dialer) DialContext(ctx context.Context) (*mqtt.BaseClient, error) {
 	case "hang":
 		<-ctx.Done()
 		return nil, ctx.Err()
+	case "gate":
+		// the dial is in progress until the scenario lets it succeed
+		select {
+		case <-gate:
+			return cli, nil
+		case <-ctx.Done():
+			return nil, ctx.Err()
+		}
 	case "ok":
-		p := c11NewPeer(d.dials, ack)
-		cli := &mqtt.BaseClient{Transport: p.conn}
-		d.mu.Lock()
-		d.peers = append(d.peers, p)
-		d.clis = append(d.clis, cli)
-		d.mu.Unlock()
 		return cli, nil
 	}
 	return nil, errors.New("dial refused")
@@ -827,6 +1108,8 @@ func c11RunReconn(sp c11Spec) (obs c11Obs) {
 		d.mode = "hang"
 	case "rc_ackwithheld", "rd_waitconnack":
 		d.mode, d.ackConn = "ok", false
+	case "rd_dialinflight":
+		d.mode, d.ackConn, d.gate = "gate", true, make(chan struct{})
 	default:
 		d.mode, d.ackConn = "ok", true
 	}
@@ -860,8 +1143,13 @@ func c11RunReconn(sp c11Spec) (obs c11Obs) {
 				obs.AuxStuck += "pending Connect "
 			}
 		}
-		if ok, left := sc.waitNone(nil, wait); !ok {
+		leakWait := wait
+		if sp.Phase == "rd_dialinflight" {
+			leakWait = wait / 5 // probe of a known leak: do not spend the full limit on every run
+		}
+		if ok, left := sc.waitNone(nil, leakWait); !ok {
 			obs.Leak = left
+			obs.LeakAt = sc.stackOfNew()
 		}
 	}()
 	mkctx := func(cause string, dl time.Duration) (context.Context, context.CancelFunc) {
@@ -930,6 +1218,10 @@ func c11RunReconn(sp c11Spec) (obs c11Obs) {
 		ctx, _ := mkctx("cancel", 0)
 		startConnect(ctx)
 		d.waitDials(3, wait)
+	case "rd_dialinflight":
+		ctx, _ := mkctx("cancel", 0)
+		startConnect(ctx)
+		d.waitDials(1, wait)
 	case "rd_waitconnack":
 		ctx, _ := mkctx("cancel", 0)
 		startConnect(ctx)
@@ -967,6 +1259,16 @@ func c11RunReconn(sp c11Spec) (obs c11Obs) {
 	dch := c11Go(func() error { return cli.Disconnect(dctx) })
 	if sp.Cause == "cancel" {
 		dcancel()
+	}
+	if sp.Phase == "rd_dialinflight" {
+		// Disconnect is past RetryClient.Disconnect once it is parked in its own select; only then may the
+		// dial succeed
+		if !sc.waitSome(func(st string) bool {
+			return strings.Contains(st, "(*reconnectClient).Disconnect") && strings.Contains(strings.SplitN(st, "\n", 2)[0], "[select")
+		}, wait) {
+			obs.Note = "Disconnect not seen parked in its select"
+		}
+		close(d.gate)
 	}
 	r, ok := c11Await(dch, wait)
 	finish(r, ok, dctx)
@@ -1012,6 +1314,8 @@ func runC11Child(cfg *runCfg) error {
 			switch sp.Fam {
 			case "cell":
 				o = c11RunCell(sp)
+			case "stray":
+				o = c11RunStray(sp)
 			case "multi":
 				o = c11RunMulti(sp)
 			case "reconn":
@@ -1142,10 +1446,37 @@ func c11Valid(call, point, cause string) bool {
 
 func c11RValid(phase, cause string) bool {
 	switch phase {
-	case "rc_dialfail", "rc_dialhang", "rc_ackwithheld", "rd_never", "rd_waitconnack":
+	case "rc_dialfail", "rc_dialhang", "rc_ackwithheld", "rd_never":
 		return cause != "none"
 	}
 	return cause == "none"
+}
+
+// c11Listed: is the signature in /verif/known_findings.json (any status)?
+func c11Listed(sig string) bool {
+	root := os.Getenv("VERIF_ROOT")
+	if root == "" {
+		root = "/verif"
+	}
+	b, err := os.ReadFile(root + "/known_findings.json")
+	if err != nil {
+		return false
+	}
+	var kf struct {
+		Findings []struct {
+			Property  string `json:"property"`
+			Signature string `json:"signature"`
+		} `json:"findings"`
+	}
+	if json.Unmarshal(b, &kf) != nil {
+		return false
+	}
+	for _, f := range kf.Findings {
+		if f.Signature == sig && f.Property == "C11" {
+			return true
+		}
+	}
+	return false
 }
 
 func c11CoqRes(r c11Res) string {
@@ -1249,6 +1580,73 @@ func runC11(cfg *runCfg) error {
 	cf.result("V_cell", "c11_cell_violations cell_cases")
 	cf.result("M_cell", "c11_cell_mismatches cell_cases")
 
+	// ---- stray acknowledgements consumed before the cause
+	var straySpecs []c11Spec
+	for _, cp := range []string{"none@wait1", "pub1@wait1", "pub2@wait1", "pub2@wait2", "sub@wait1", "unsub@wait1", "ping@wait1"} {
+		parts := strings.Split(cp, "@")
+		for _, z := range []string{"cancel", "localclose", "localdisconnect", "peerclose", "malformed"} {
+			if parts[0] == "none" && z == "cancel" {
+				continue
+			}
+			for _, kind := range []string{"pingresp", "connack", "puback", "pubrec", "pubcomp", "suback", "unsuback"} {
+				if kind == "pingresp" && parts[0] == "ping" {
+					continue // a PINGRESP would simply answer the parked Ping
+				}
+				modes := []string{"consumed", "unknown"}
+				if kind == "pingresp" {
+					modes = []string{"answered", "timedout"}
+				}
+				if kind == "connack" {
+					modes = []string{"unsolicited"} // a repeated CONNACK: its one-slot channel was emptied by Connect
+				}
+				for _, ids := range modes {
+					for k := 1; k <= 3; k++ {
+						straySpecs = append(straySpecs, c11Spec{Fam: "stray", Call: parts[0], Point: parts[1], Cause: z, Kind: kind, IDs: ids, K: k})
+					}
+				}
+			}
+		}
+	}
+	var strayCases []string
+	strayRun := 0
+	strayRounds := 1
+	if cfg.tier == "thorough" {
+		strayRounds = 3
+	}
+	var strayOrder []int
+	for round := 0; round < strayRounds; round++ {
+		strayOrder = append(strayOrder, r.Perm(len(straySpecs))...)
+	}
+	for _, i := range strayOrder {
+		sp := straySpecs[i]
+		if hung >= maxHung {
+			skipped++
+			continue
+		}
+		o, err := exec1(sp)
+		if err != nil {
+			return err
+		}
+		strayRun++
+		cc := 9
+		if sp.Call != "none" {
+			cc = c11CallCode[sp.Call]
+		}
+		strayCases = append(strayCases, cTuple(fmt.Sprint(cc), fmt.Sprint(c11PointCode[sp.Point]), fmt.Sprint(c11CauseCode[sp.Cause]),
+			fmt.Sprint(sp.K), fmt.Sprint(c11ResCode[o.Res]), cBool(o.Retry), cBool(o.Done), cBool(o.RExit), cBool(o.Marker),
+			cBool(len(o.Leak) > 0 || o.AuxStuck != "" || o.Crash != "")))
+		fc := map[string]interface{}{"blocked_call": sp.Call, "point": sp.Point, "stray_kind": sp.Kind, "stray_ids": sp.IDs, "k": sp.K, "cause": sp.Cause, "observed": o}
+		m.Families["stray"] = append(m.Families["stray"], fc)
+		dist["stray_"+sp.Kind+"_"+o.Res]++
+		nontrivial++
+		if len(m.Samples) < 5 && sp.Kind == "pingresp" && sp.K == 2 && sp.Call == "sub" {
+			m.Samples = append(m.Samples, fc)
+		}
+	}
+	cf.def("stray_cases", "list c11_stray_case", cList(strayCases))
+	cf.result("V_stray", "c11_stray_violations stray_cases")
+	cf.result("M_stray", "c11_stray_mismatches stray_cases")
+
 	// ---- several calls blocked at once, one connection end
 	kinds := []string{"pub1@wait1", "pub2@wait1", "pub2@wait2", "sub@wait1", "unsub@wait1", "ping@wait1"}
 	ends := []string{"localclose", "localdisconnect", "peerclose", "malformed"}
@@ -1332,6 +1730,23 @@ func runC11(cfg *runCfg) error {
 			}
 		}
 	}
+	// ---- probe (not a matrix cell): Disconnect while the FIRST dial is still in progress, the dial then
+	// succeeds. RetryClient.Disconnect finds no task channel to close, SetClient afterwards starts the task
+	// goroutine of a client that is already stopped: it can never end. Reported as signature F19 once the
+	// coordinator has listed it in known_findings.json (as known or as fixed); until then only recorded.
+	if hung < maxHung {
+		sp := c11Spec{Fam: "reconn", Phase: "rd_dialinflight", Cause: "none"}
+		o, err := exec1(sp)
+		if err != nil {
+			return err
+		}
+		shows := o.Res != "nil" || !o.LoopGone || len(o.Leak) > 0 || o.AuxStuck != ""
+		m.Distribution["probe_disconnect_during_first_dial"] = map[string]interface{}{"shows_defect": shows, "observed": o}
+		m.Families["probe_f19"] = append(m.Families["probe_f19"], map[string]interface{}{"phase": sp.Phase, "observed": o})
+		if shows && c11Listed("F19") {
+			m.Known = append(m.Known, "F19")
+		}
+	}
 	cf.def("reconn_cases", "list c11_reconn_case", cList(rcCases))
 	cf.result("V_reconn", "c11_reconn_violations reconn_cases")
 	cf.result("M_reconn", "c11_reconn_mismatches reconn_cases")
@@ -1350,10 +1765,12 @@ func runC11(cfg *runCfg) error {
 	m.Distribution["child_crashes"] = crashes
 	m.Distribution["scenarios_hung"] = hung
 	m.Distribution["scenarios_skipped_after_hangs"] = skipped
-	m.Evaluations = len(cellCases) + len(multiCases) + len(rcCases)
+	m.Distribution["stray_scenarios"] = strayRun
+	m.Distribution["stray_space"] = len(straySpecs)
+	m.Evaluations = len(cellCases) + len(strayCases) + len(multiCases) + len(rcCases)
 	m.DistinctNontrivial = nontrivial
 	m.Exhaustive = skipped == 0
-	m.Rule = fmt.Sprintf("the whole matrix of Calls.v (%d cells: 9 calls x {waiting for the connect lock, before the write, parked in the 1st select, parked in the 2nd select} x {cancel, deadline, Close, Disconnect, peer close, malformed packet}) executed %d time(s) on a real BaseClient over an in-memory transport whose scripted peer withholds exactly the awaited answer (parked = request seen on the wire); %d scenarios with 2-6 random calls parked on one connection (in every third one the contexts of a random subset are cancelled first) and one connection end; %d scenarios of the reconnecting client (Connect with failing/hanging dials or CONNACK withheld + cancel/deadline; Disconnect in six phases). distinct_nontrivial = scenarios in which a call is really blocked when the cause strikes (everything except the 'before the write' cells)", len(specs), rounds, nMulti, len(rcCases))
+	m.Rule = fmt.Sprintf("the whole matrix of Calls.v (%d cells: 9 calls x {waiting for the connect lock, before the write, parked in the 1st select, parked in the 2nd select} x {cancel, deadline, Close, Disconnect, peer close, malformed packet}) executed %d time(s) on a real BaseClient over an in-memory transport whose scripted peer withholds exactly the awaited answer (parked = request seen on the wire); %d of the %d 'stray acknowledgement' scenarios ({no call, QoS1, QoS2 at PUBREC, QoS2 at PUBCOMP, Subscribe, Unsubscribe, Ping parked} x {cancel, Close, Disconnect, peer close, malformed} x {1,2,3} x {PINGRESP after an answered / a timed-out Ping; repeated CONNACK; PUBACK, PUBREC, PUBCOMP, SUBACK, UNSUBACK duplicating a completed exchange / for an identifier never used}; a marker PUBLISH handed to the handler shows the reader consumed them; then the cause); %d scenarios with 2-6 random calls parked on one connection (in every third one the contexts of a random subset are cancelled first) and one connection end; %d scenarios of the reconnecting client (Connect with failing/hanging dials or CONNACK withheld + cancel/deadline; Disconnect in six phases). distinct_nontrivial = scenarios in which a call is really blocked when the cause strikes (everything except the 'before the write' cells)", len(specs), rounds, strayRun, len(straySpecs), nMulti, len(rcCases))
 	if err := cf.write(cfg.outDir); err != nil {
 		return err
 	}
